@@ -34,7 +34,7 @@ ASSUMPTIONS = [
 MANIFEST = {
     "level": LEVEL,
     "technique": "deterministic simulation with fault enumeration: every fault position x fault kind of generated comptime bodies inside seeded compile/check histories, module namespaces compared with a before-snapshot after every op",
-    "text": "For each seeded configuration (modules, user bindings of int/float/len as function/alias/non-callable/Guppy definition/absent, comptime and regular functions calling each other across modules, the user rebinding / newly binding / deleting a shadowed name between two ops, comptime functions that are plain / wrapped by a functools.wraps decorator of the same or of a helper module / defined in a helper module and registered from the user's module, the helper module's namespace being part of the snapshot) the check enumerates all fault positions (before s1 .. after sn) x 17 fault kinds of the traced body (user exceptions incl. StopIteration, GeneratorExit, KeyboardInterrupt, SystemExit and a BaseException subclass, tracer errors, a raising Python helper) plus pre-tracing and post-tracing failures, runs 1-6 op histories, and after every op requires every user module's {name: identity} map and builtins to equal the snapshot taken before it. Complete over positions x kinds per configuration; configurations are sampled.",
+    "text": "For each seeded configuration (modules, user bindings of int/float/len as function/alias/non-callable/Guppy definition/absent, comptime and regular functions calling each other across modules, the user rebinding / newly binding / deleting a shadowed name between two ops, traced bodies that catch the failure of a nested comptime call and go on, compilations nested inside a trace (a traced body calling compile_function()/check() on another comptime definition), functions over a globals dict that is no module's, comptime functions that are plain / wrapped by a functools.wraps decorator of the same or of a helper module / defined in a helper module and registered from the user's module, the helper module's namespace being part of the snapshot) the check enumerates all fault positions (before s1 .. after sn) x 17 fault kinds of the traced body (user exceptions incl. StopIteration, GeneratorExit, KeyboardInterrupt, SystemExit and a BaseException subclass, tracer errors, a raising Python helper) plus pre-tracing and post-tracing failures, runs 1-6 op histories, and after every op requires every user module's {name: identity} map and builtins to equal the snapshot taken before it. Complete over positions x kinds per configuration; configurations are sampled.",
     "note": "Trusted: the snapshot oracle, the body/fault templates (each fault kind is confirmed to raise at its position by a probe counter), the compat shim.",
     "design_ref": "DESIGN.md section 3 (C23)",
 }
